@@ -113,6 +113,7 @@ package swarmutil
 //@ type Queue
 //@   invariant queue != nil && freelist != nil && closed != nil && !closed(queue) && !closed(freelist)
 //@   invariant closed != queue && closed != freelist && queue != freelist
+//@   invariant closeOnce <==> closed(closed)
 //@   chan closed: false
 
 //@ func zeroMessage
@@ -151,3 +152,19 @@ package swarmutil
 //@     set called = true
 //@   fnspec fn:
 //@     preserves q.freelist, q.queue, q.closed, closed(q.freelist)
+
+// Close closes the closed signal (once); it then collects the buffers, waiting for callbacks in flight
+//@ func (*Queue).Close
+//@   assumeframe
+//@   modifies q.closeOnce
+//@   allowpanic
+//@   requires q != nil && inv(q)
+//@   ensures [closed] closed(old(q.closed))
+//@   ensures [inv] inv(q)
+//@
+//@ func (*Queue).Close$1
+//@   inline
+//@   allowpanic
+//@   loop 0:
+//@     invariant q.closed == old(q.closed) && q.queue == old(q.queue) && q.freelist == old(q.freelist) && q.closeOnce
+//@     invariant closed(q.closed) && !closed(q.queue) && !closed(q.freelist)
